@@ -10437,6 +10437,48 @@ func E11ToleranceThreaded(c *core.Ctx, r *core.Report) {
 		})
 		return hit
 	}
+	// locals computed from a tolerance parameter carry the tolerance too (tol := math.Max(tolerance, Epsilon))
+	withDerived := func(fd *ast.FuncDecl, own map[types.Object]bool) {
+		for changed := true; changed; {
+			changed = false
+			ast.Inspect(fd.Body, func(m ast.Node) bool {
+				as, ok := m.(*ast.AssignStmt)
+				if !ok || len(as.Lhs) != len(as.Rhs) {
+					return true
+				}
+				for i, l := range as.Lhs {
+					lid, ok := l.(*ast.Ident)
+					if !ok {
+						continue
+					}
+					o := core.ObjOf(info, lid)
+					if o == nil || own[o] || !isFloat(o) || !mentionsAny(as.Rhs[i], own) || as.Tok != token.DEFINE && as.Tok != token.ASSIGN {
+						continue
+					}
+					// a pure rescaling: besides the tolerance only constants, package-level values and math functions
+					pure := true
+					ast.Inspect(as.Rhs[i], func(k ast.Node) bool {
+						id, ok := k.(*ast.Ident)
+						if !ok {
+							return true
+						}
+						switch x := core.ObjOf(info, id).(type) {
+						case *types.Var:
+							if !own[x] && x.Parent() != p.Types.Scope() {
+								pure = false
+							}
+						}
+						return true
+					})
+					if pure {
+						own[o] = true
+						changed = true
+					}
+				}
+				return true
+			})
+		}
+	}
 	type site struct {
 		caller *types.Func
 		call   *ast.CallExpr
@@ -10462,6 +10504,9 @@ func E11ToleranceThreaded(c *core.Ctx, r *core.Report) {
 				if tol[s.caller][i] && o != nil {
 					own[o] = true
 				}
+			}
+			if len(own) > 0 {
+				withDerived(decls[s.caller], own)
 			}
 			gps := paramObjs(decls[s.callee])
 			for i, a := range s.call.Args {
@@ -10507,6 +10552,7 @@ func E11ToleranceThreaded(c *core.Ctx, r *core.Report) {
 				ownNames = append(ownNames, o.Name())
 			}
 		}
+		withDerived(decls[s.caller], own)
 		for i, a := range s.call.Args {
 			if !tol[s.callee][i] {
 				continue
